@@ -55,7 +55,9 @@ def run_sums(ctx):
 def gen_grid(rng):
     import tskit
     num_nodes = rng.randint(2, 7)
-    nonfixed = sorted(rng.sample(range(num_nodes), rng.randint(1, num_nodes - 1)))
+    nonfixed = rng.sample(range(num_nodes), rng.randint(1, num_nodes - 1))   # NOT sorted by id
+    if rng.random() < 0.3:
+        nonfixed.sort()
     k = rng.choice([2, 3, 5, 8, 9, 21, 40])
     tp = sorted(set([0.0] + [round(rng.random() * 10 ** rng.randint(-1, 3), 6) for _ in range(k - 1)]))
     while len(tp) < 2:
@@ -122,9 +124,9 @@ def run_impl_grid(c):
 
 def grid_term(c, exp_pairs):
     grid = []
-    it = iter(c["rows"])
+    row_of = dict(zip(c["nonfixed"], c["rows"]))      # grid row k belongs to node nonfixed[k]
     for u in range(c["num_nodes"]):
-        grid.append("(Some %s)" % clist(next(it), cfloat) if u in c["nonfixed"] else "None")
+        grid.append("(Some %s)" % clist(row_of[u], cfloat) if u in row_of else "None")
     seen = {}
     for a, b in exp_pairs:
         seen.setdefault(float(a).hex() if not math.isnan(a) else "nan", (a, b))
@@ -149,8 +151,10 @@ def run_grids(ctx):
                   "row0": c["rows"][0][:6]}, nontrivial=True,
                  kind="grid/%s/%s" % ("log" if c["log"] else "lin", "assert" if o["post"] is None else "ok"))
         # standardize
+        by_node = sorted(range(len(c["nonfixed"])), key=lambda k: c["nonfixed"][k])   # grid rows in node-id order
         rows_m = [r[1] for r in std_m if r is not None]
-        ok = len(rows_m) == len(o["std"]) and all(same_list(a, b) for a, b in zip(o["std"].tolist(), rows_m))
+        impl_std = [o["std"].tolist()[k] for k in by_node]
+        ok = len(rows_m) == len(impl_std) and all(same_list(a, b) for a, b in zip(impl_std, rows_m))
         ctx.corr("standardize", ok, "impl=%r model=%r" % (o["std"].tolist()[:2], rows_m[:2]), replay=c)
         # to_probabilities
         if o["post"] is None or post_m is None:
@@ -158,7 +162,8 @@ def run_grids(ctx):
                      "assertion: impl %s, model %s" % (o["post"] is None, post_m is None), replay=c)
             continue
         prow_m = [r[1] for r in post_m[1] if r is not None]
-        ok = len(prow_m) == len(o["post"]) and all(same_list(a, b) for a, b in zip(o["post"].tolist(), prow_m))
+        impl_post = [o["post"].tolist()[k] for k in by_node]
+        ok = len(prow_m) == len(impl_post) and all(same_list(a, b) for a, b in zip(impl_post, prow_m))
         ctx.corr("to_probabilities", ok, "impl=%r model=%r" % (o["post"].tolist()[:2], prow_m[:2]), replay=c)
         ctx.corr("mean_var", same_list(o["mean"], mean_m) and same_list(o["var"], var_m),
                  "impl=(%r, %r) model=(%r, %r)" % (o["mean"], o["var"], mean_m, var_m), replay=c)
@@ -168,6 +173,15 @@ def run_grids(ctx):
                 continue
             if min(row) < 0 or abs(sum(row) - 1.0) > 1e-12:
                 ctx.oracle_fail("c04:posterior-row-not-a-distribution", "row %r" % (row[:6],), c)
+                continue
+            # node u's mean / variance are the moments of ITS OWN row
+            tp = np.array(c["timepoints"])
+            mn = float(np.dot(row, tp))
+            vr = float(np.dot(row, (tp - mn) ** 2))
+            scale = max(abs(mn), 1e-300)
+            if abs(o["mean"][u] - mn) > 1e-9 * scale or abs(o["var"][u] - vr) > 1e-8 * max(vr, scale * scale * 1e-6):
+                ctx.oracle_fail("c04:mean-var-not-the-moments-of-the-node's-row",
+                                "node %d: mean_var gives (%r, %r), its row has (%r, %r)" % (u, o["mean"][u], o["var"][u], mn, vr), c)
         for u in range(c["num_nodes"]):
             if u not in c["nonfixed"] and not (o["mean"][u] == c["node_times"][u] and o["var"][u] == 0.0):
                 ctx.oracle_fail("c04:fixed-node-not-exact", "node %d: %r %r" % (u, o["mean"][u], o["var"][u]), c)
@@ -216,8 +230,8 @@ def run_date(ctx):
         method = rng.choice(["variational_gamma", "variational_gamma", "inside_outside", "inside_outside", "maximization"])
         discrete = method != "variational_gamma"
         multi = rng.random() < 0.5
-        ts = G.pooled_ts(rng, size=ctx.n(10, 40), multi=multi, extras=rng.random() < 0.3, min_muts=2,
-                         migrations=False)
+        ts = G.maybe_permuted(rng, G.pooled_ts(rng, size=ctx.n(10, 40), multi=multi, extras=rng.random() < 0.3,
+                                               min_muts=2, migrations=False), 0.6)
         tables = ts.dump_tables()
         kn, km = rng.choice(SAFE_KINDS), rng.choice(SAFE_KINDS)
         G.decorate(tables.nodes, kn, rng)
